@@ -25,7 +25,10 @@ type Cell struct {
 	R2     bool `json:"r2"`
 	R3     bool `json:"r3"`
 	Mask   bool `json:"mask"`
-	// Len: 0:0 bytes, 1:1, 2:125, 3:126 (16-bit form), 4:65536 (64-bit form), 5: 64-bit with top bit set
+	// Len: 0:0 bytes, 1:1, 2:125, 3:126 (16-bit form), 4:65536 (64-bit form), 5: 64-bit with top bit set,
+	// 6: 16-bit form announcing 5 bytes, 7: 64-bit form announcing 5 bytes (extended length
+	// field used for a short payload; enumerated for control opcodes, where any
+	// extended length field makes the frame an oversized control frame)
 	Len int `json:"len"`
 	// Close body class, for Op 8 with Len 0 (see closeBodies).
 	Close int `json:"close,omitempty"`
@@ -101,6 +104,8 @@ func classifyCell(c Cell) (verdict int, owes1002 bool) {
 		if c.Len >= 3 {
 			viol = true
 		}
+	} else if c.Len >= 6 {
+		unspec = true // non-minimal length encoding on a data frame
 	}
 	if (c.Op == 1 || c.Op == 2) && c.Inside {
 		viol = true
@@ -171,6 +176,12 @@ func buildCell(c Cell, verdict int) (prefix, cell, tail []wsref.Frame, ok bool) 
 	ok = true
 	var restOfDeflate []byte
 	switch {
+	case c.Len == 6 || c.Len == 7:
+		f.LenForm = map[int]int{6: 16, 7: 64}[c.Len]
+		f.Payload = []byte("short")
+		if c.Op == 8 {
+			f.Payload = wsref.CloseBody(1000, "abc")
+		}
 	case c.Len == 5:
 		claim := uint64(1)<<63 | 5
 		f.Claim = &claim
@@ -512,7 +523,10 @@ func enumCells(yield func(Cell) bool) {
 							for _, r2 := range bools {
 								for _, r3 := range bools {
 									for _, mask := range bools {
-										for l := 0; l <= 5; l++ {
+										for l := 0; l <= 7; l++ {
+											if l >= 6 && op < 8 {
+												continue // non-minimal lengths on data frames are not classified by the statement
+											}
 											c := Cell{Inside: inside, Server: server, Comp: comp, Op: byte(op), Fin: fin, R1: r1, R2: r2, R3: r3, Mask: mask, Len: l}
 											if op == 8 && l == 0 {
 												for cb := 0; cb < ncb; cb++ {
@@ -592,7 +606,7 @@ func genViolation(t *rapid.T, inside, server, comp bool) Cell {
 			}
 		case 5:
 			if c.Op >= 8 {
-				c.Len = rapid.SampledFrom([]int{3, 4}).Draw(t, "ctlbig")
+				c.Len = rapid.SampledFrom([]int{3, 4, 6, 7}).Draw(t, "ctlbig")
 				c.Close = 0
 			} else {
 				c.R3 = true
